@@ -164,8 +164,36 @@ def rule_ctor_identity(ck):
     ck.floor("C09.R2", n, 4, "constructor stores of nested simulator objects")
 
 
+def _acc_expr(fl, e, node, param, depth=6):
+    """is `e` (at node) an accumulator value: the function's accumulator parameter, the accumulator element of an earlier registry
+    call, the normalised parameter (_none_to_empty_dict), or a merge of such"""
+    ex = fl.expand(e, node) if not isinstance(e, ast.Call) or not (call_name(e) or "").startswith("__") else e
+
+    def ok(x, d):
+        if d <= 0:
+            return False
+        if isinstance(x, ast.Name):
+            return x.id == param
+        if isinstance(x, ast.Call):
+            nm = call_name(x)
+            if nm in ("__phi__", "__gamma__"):
+                args = x.args[1:] if nm == "__gamma__" else x.args
+                return all(ok(a, d - 1) for a in args)
+            if nm == "__loop__":
+                return True
+            if nm == "__item__" and len(x.args) == 2 and isinstance(x.args[1], ast.Constant):
+                inner = x.args[0]
+                if isinstance(inner, ast.Call) and call_name(inner) in ("_to_registry", "_build_from_id", "_from_registry", "_to_dict", "_from_dict", "_from_dict_helper"):
+                    return x.args[1].value == 1
+                if isinstance(inner, ast.Call) and call_name(inner) == "_none_to_empty_dict":
+                    return all(ok(a, d - 1) for a in inner.args[:1])
+        return False
+    return ok(ex, depth)
+
+
 def rule_threading(ck):
-    """R3: every recursive registry call passes the accumulator and rebinds it from the result; the function returns it."""
+    """R3: every recursive registry call receives the accumulator (the parameter or what an earlier call returned), the accumulator
+    it returns is used afterwards (not dropped), and the function returns an accumulator."""
     repo = ck.repo
     n = 0
     for f in repo.all_functions():
@@ -175,39 +203,53 @@ def rule_threading(ck):
             continue
         fl = flow_of(f)
         acc = "context_dict" if f.name == "_to_dict" else "loaded_dict"
+        if acc not in f.params:
+            if f.name == "_from_dict_helper" and not any(call_name(c) in ("_build_from_id", "_from_registry") for _, c in calls_in(fl)):
+                continue          # a helper that restores plain values only needs no accumulator
+            raise AnalysisError(f"{f.qual}: accumulator parameter {acc} not found")
         for node, c in calls_in(fl):
             nm = call_name(c)
             if nm not in ("_to_registry", "_build_from_id", "_from_registry") and not (nm == "_to_dict" and isinstance(c.func.value, ast.Call)):
                 continue
             n += 1
-            # argument
-            if nm == "_to_registry":
-                arg = next((k.value for k in c.keywords if k.arg == "context_dict"), c.args[0] if c.args else None)
-                want = "context_dict"
-            elif nm == "_to_dict":
+            if nm in ("_to_registry", "_to_dict"):
                 arg = next((k.value for k in c.keywords if k.arg == "context_dict"), c.args[0] if c.args else None)
                 want = "context_dict"
             else:
                 arg = next((k.value for k in c.keywords if k.arg == "loaded_dict"), c.args[2] if len(c.args) > 2 else None)
                 want = "loaded_dict"
-            ck.require(arg is not None and dotted(arg) == want, "C09.R3", f, c, ok=f"{want} passed down",
+            ck.require(arg is not None and want == acc and _acc_expr(fl, arg, node, acc), "C09.R3", f, c, ok=f"{want} passed down",
                        bad=f"the recursive call does not pass the {want} accumulator: the callee starts from an empty registry and sharing/termination is lost",
                        sink=f"{f.qual}:{nm}:pass")
-            # rebinding: the call is the value of an Assign whose target tuple's second element is the accumulator
+            # the accumulator element of the result is bound to a name that is read afterwards
             st = node.stmt if node.kind == "stmt" else None
-            ok = isinstance(st, ast.Assign) and st.value is c and len(st.targets) == 1 and isinstance(st.targets[0], (ast.Tuple, ast.List)) \
-                and len(st.targets[0].elts) == 2 and dotted(st.targets[0].elts[1]) == want
-            ck.require(ok, "C09.R3", f, st if st is not None else c, ok=f"{want} rebound from the result",
-                       bad=f"the result's accumulator is not rebound to {want}: objects registered by the callee are forgotten",
-                       sink=f"{f.qual}:{nm}:rebind")
+            used = False
+            if isinstance(st, ast.Assign) and st.value is c and len(st.targets) == 1 and isinstance(st.targets[0], (ast.Tuple, ast.List)) \
+                    and len(st.targets[0].elts) == 2 and isinstance(st.targets[0].elts[1], ast.Name):
+                x = st.targets[0].elts[1].id
+                for m in fl.cfg.nodes:
+                    if m is node and not (node in fl.cfg.reach_from_succ(node)):
+                        continue
+                    for e in fl.cfg.node_exprs(m):
+                        tgt_ids = set()
+                        if m.kind == "stmt" and isinstance(m.stmt, ast.Assign):
+                            tgt_ids = {id(q) for t in m.stmt.targets for q in ast.walk(t)}
+                        for q in [e] + list(walk_local(e)):
+                            if isinstance(q, ast.Name) and q.id == x and isinstance(q.ctx, ast.Load) and id(q) not in tgt_ids and node in fl.defs_at(m, x):
+                                used = True
+            ck.require(used, "C09.R3", f, st if st is not None else c, ok=f"the returned {want} is carried on",
+                       bad=f"the accumulator returned by the call is dropped: objects registered by the callee are forgotten", sink=f"{f.qual}:{nm}:rebind")
         if f.name in ("_to_dict", "_from_dict"):
-            for r in [x for x in fl.cfg.nodes if x.kind == "return"]:
+            rets = [x for x in fl.cfg.nodes if x.kind == "return"]
+            ck.require(bool(rets) and all(p_.kind in ("return", "raise") for p_ in fl.cfg.exit.pred), "C09.R3", f, f.qual, ok="always returns", bad=f"{f.qual} can fall off the end without returning (object, accumulator)",
+                       sink=f"{f.qual}:returns")
+            for r in rets:
                 e = r.expr
                 good = False
-                if isinstance(e, ast.Tuple) and len(e.elts) == 2 and dotted(e.elts[1]) == acc:
-                    good = True
+                if isinstance(e, ast.Tuple) and len(e.elts) == 2:
+                    good = _acc_expr(fl, e.elts[1], r, acc)
                 elif isinstance(e, ast.Call) and call_name(e) in RESTORE_FUNCS:
-                    good = any(dotted(a) == acc for a in e.args) or any(dotted(k.value) == acc for k in e.keywords)
+                    good = any(_acc_expr(fl, a, r, acc) for a in e.args) or any(_acc_expr(fl, k.value, r, acc) for k in e.keywords)
                 ck.require(good, "C09.R3", f, r.stmt, ok=f"returns the {acc} accumulator", bad=f"{f.qual} does not return the {acc} accumulator it received/extended",
                            sink=f"{f.qual}:return-acc")
     ck.floor("C09.R3", n, 20, "recursive registry call sites")
